@@ -277,7 +277,7 @@ def check(repo, res, tier):
     plogic = Logic(ProvCanon(repo))
     # every path on which the delay model lengthened the task (duration < total) raises the flag
     n_len = 0
-    badp = None
+    badp = undecided = None
     ids = {id(n) for n in flag_sets}
     for p in dpaths:
         if p.exit == 'raise':
@@ -287,7 +287,15 @@ def check(repo, res, tier):
             n_len += 1
             if not any(id(e.node) in ids for e in p.events):
                 badp = p
-    if n_len and badp is None:
+        elif (LENGTHENED[0], not LENGTHENED[1]) not in must and undecided is None:
+            undecided = p        # neither `duration < total` nor its negation decided on this path
+    if n_len and badp is None and undecided is not None:
+        res.bad('C15.Y5', d, d.node, 'a path never compares the duration with the delayed duration',
+                'on some path through do_work the task\'s duration as it stands at that point (it may just have been '
+                'recomputed for the machine) is never compared with the value of _calc_task_delay(): a delay added on '
+                'that path is not flagged (a copy of the duration taken before it is recomputed is not the duration)',
+                path=undecided.describe())
+    elif n_len and badp is None:
         res.ok('C15.Y5', d, flag_sets[0] if flag_sets else d.node, 'delay_flag = True on every path with duration < _calc_task_delay()',
                '%d paths' % n_len)
     elif not n_len:
@@ -402,6 +410,24 @@ def check(repo, res, tier):
                     canon.c(n.value, ufr) == 'ScheduleStatus.DELAYED':
                 loops = [g[1] for g in (guard_stack(u.node, n) or []) if g[0] == 'for']
                 whiles = [g for g in (guard_stack(u.node, n) or []) if g[0] == 'while']
+                # conditions (guard clauses included) the whole examination stands under: only "the plan
+                # has tasks at all" is harmless
+                outer = []
+                for g in (guard_stack(u.node, n) or []):
+                    if g[0] != 'if':
+                        break
+                    outer.append(g)
+                for g in outer:
+                    at = {(l.atom, l.pol) for l in plogic.must(g[1], ufr, g[2])}
+                    if at and at <= {('truthy(%s)' % T, True), ('len(%s) <= 0' % T, False)}:
+                        continue
+                    bad = upaths[0]
+                    res.bad('C15.Y5', u, n, 'the examination of finished tasks is skipped under a condition',
+                            'the loop that reports DELAYED for finished flagged tasks only runs when %s%s: a flagged task that '
+                            'finishes while that does not hold (e.g. the LAST task of the workflow, when nothing remains) is '
+                            'dropped from the plan without the delay ever being reported' % (
+                                '' if g[2] else 'not ', short(ppc.p(g[1], ufr), 80)))
+                    break
                 if (len(loops) != 1 or whiles or ppc.p(loops[0].iter, ufr) != T or loop_leaves_early(loops[0])) \
                         and not general_guard():
                     bad = upaths[0]
